@@ -93,12 +93,20 @@ JOBSETS['depth'] = {
 }
 
 OPKG = 'github.com/cloudwego/frugal/internal/opts'
+_ENVS = [{'FRUGAL_MAX_INLINE_DEPTH': '2', 'FRUGAL_MAX_INLINE_IL_SIZE': '257'}, {'FRUGAL_MAX_INLINE_DEPTH': '3', 'FRUGAL_MAX_INLINE_IL_SIZE': '0x7fffffffffffffff'}]
 JOBSETS['legacy'] = {
+    # codec cores of the nesting family with the legacy environment variables holding valid values from process start
+    'gen': {'families': {'quick': ['nest'], 'thorough': ['nest', 'default']}, 'bounds': {'quick': '1,1,1,2', 'thorough': '2,2,2,2'}},
+    'kinds': ['codec'],
+    'gen_env': _ENVS,
     'jobs': {t: [{'id': 'legacy/codec', 'entry': FPKG + '.VerifLegacy', 'reach': ['end'], 'tags': ['legacy']}] +
+                [{'id': 'legacy/envdepth/via%d/d%d' % (via, d), 'entry': FPKG + '.VerifDepthKnown', 'setup': FPKG + '.VerifSetupDepth', 'reach': ['end'],
+                  'cfg': {'params': {'d': d, 'via': via}, 'max_depth': 200000, 'step_limit': 50000000, 'env': {'FRUGAL_MAX_INLINE_DEPTH': '64', 'FRUGAL_MAX_INLINE_IL_SIZE': '1000'}}, 'tags': ['legacy']}
+                 for via in range(5) for d in (48, 100, 1024)] +
                 [{'id': 'legacy/env/len%d' % n, 'entry': OPKG + '.VerifParseEnv', 'reach': ['end'] + (['valid'] if n else []), 'cfg': {'sym_env_len': n, 'env': ({} if n else {'FRUGAL_MAX_INLINE_DEPTH': ''})}, 'tags': ['legacy'], 'no_tv': True}
                  for n in ((0, 1, 2, 3) if t == 'quick' else (0, 1, 2, 3, 4, 5))]
              for t in ('quick', 'thorough')},
-    'cfg': {'quick': {'timeout_s': 300}, 'thorough': {'timeout_s': 900}},
+    'cfg': {'quick': {'timeout_s': 300, 'solver_timeout_ms': 10000}, 'thorough': {'timeout_s': 1800, 'solver_timeout_ms': 60000}},
     'wall': {'quick': 900, 'thorough': 3600},
 }
 
@@ -120,8 +128,29 @@ JOBSETS['parse'] = {
     'wall': {'quick': 1800, 'thorough': 7200},
 }
 
+def _conc_jobs(tier):
+    # (mode, preemption bound): mode 0 two first uses of mutually nested types, 1 first use + steady state,
+    # 2 all three goroutines, 3 the same fresh type from two goroutines
+    if tier == 'quick':
+        combos = [(0, 2), (1, 2), (3, 2), (4, 2), (2, 1), (6, 1), (7, 1), (5, -1)]
+    else:
+        combos = [(0, 4), (1, 4), (3, 4), (4, 4), (2, 2), (6, 2), (7, 2), (5, 2)]
+    jobs = [{'id': 'conc/mode%d/pb%d' % (m, max(pb, 0)), 'entry': FPKG + '.VerifConcurrent', 'setup': FPKG + '.VerifSetupConc', 'reach': ['end'],
+             'cfg': {'params': {'mode': m}, 'preemption_bound': pb, 'step_limit': 2000000000}, 'tags': ['conc', 'C08'], 'no_tv': True} for m, pb in combos]
+    # the same with every Pool.Get missing (fresh objects) instead of LIFO hand-over between goroutines
+    for m, pb in ([(2, 1), (6, -1)] if tier == 'quick' else [(2, 2), (6, 1), (5, 1)]):
+        jobs.append({'id': 'conc/mode%d/pb%d/poolmiss' % (m, max(pb, 0)), 'entry': FPKG + '.VerifConcurrent', 'setup': FPKG + '.VerifSetupConc', 'reach': ['end'],
+                     'cfg': {'params': {'mode': m, 'pool': 1}, 'preemption_bound': pb, 'step_limit': 2000000000}, 'tags': ['conc', 'C08'], 'no_tv': True})
+    return jobs
+
+JOBSETS['conc'] = {
+    'jobs': {t: _conc_jobs(t) for t in ('quick', 'thorough')},
+    'cfg': {'quick': {'timeout_s': 1500, 'solver_timeout_ms': 10000}, 'thorough': {'timeout_s': 6000, 'solver_timeout_ms': 30000}},
+    'wall': {'quick': 1800, 'thorough': 7200},
+}
+
 PROPS = {
-    'C17': {'jobsets': ['legacy'], 'phases': [''], 'translator_validation': 2, 'also_labels': r'^(C13 |M-frozen)'},
+    'C17': {'jobsets': ['legacy'], 'phases': ['', 'encode', 'decode'], 'translator_validation': 2, 'also_labels': r'^(C\d\d |M-)'},
     'C15': {'jobsets': ['depth'], 'phases': ['decode'], 'translator_validation': 4},
     'C12': {'jobsets': ['codec', 'parse'], 'phases': ['encode', 'decode'], 'job_filter': r'codec/(Sp|Sc|Tw|Id|Li_|Se_)|parse/', 'also_labels': r'^(C01|C02|C04)'},
     'C13': {'jobsets': ['invalid', 'parse'], 'phases': [''], 'translator_validation': 4},
@@ -132,7 +161,7 @@ PROPS = {
     'C03': {'jobsets': ['decmsg', 'bytes'], 'phases': ['decode'], 'job_filter': r'^(decmsg|bytes)/'},
     'C04': {'jobsets': ['codec'], 'phases': ['encode']},
     'C05': {'jobsets': ['bytes', 'mutmsg'], 'phases': ['decode']},
-    'C08': {'jobsets': ['unit', 'codec', 'decmsg', 'hist'], 'phases': [], 'job_filter': r'unit/descmap|^codec/(Sc|Li_|Mp_s|Df|Uk|Ns|Mr|Tw)|^decmsg/|^hist/', 'also_labels': r'^(C08|M-released|deadlock)'},
+    'C08': {'jobsets': ['conc', 'unit', 'codec', 'decmsg', 'hist'], 'phases': [], 'job_filter': r'^conc/|unit/descmap|^codec/(Sc|Li_|Mp_s|Df|Uk|Ns|Mr|Tw)|^decmsg/|^hist/', 'also_labels': r'^(C08|M-released|deadlock)'},
     'C09': {'jobsets': ['unit', 'decmsg', 'hist', 'bytes', 'codec'], 'phases': [], 'job_filter': r'unit/bitset|Rq|Hs|By_unk|ScA_|ScD_|Id(Lo|Mid|Hi)',
             'also_labels': r'^(C03 a well-formed|C03 every transmitted|C05 DecodeObject succeeds|C02 bytes equal)'},
     'C10': {'jobsets': ['codec', 'decmsg'], 'phases': [], 'job_filter': r'Df|ScD_|LeafD|NsB',
@@ -220,7 +249,9 @@ MANIFEST_TEXT.update({
             'technique': 'SSA-level symbolic execution with symbolic depth budget + concrete deep-structure runs'},
     'C17': {'level': 'opts.MaxInlineDepth/MaxInlineILSize hold arbitrary (symbolic) values and one legacy call with an arbitrary argument (setters, NoJIT, GetStats, Pretouch on valid/invalid/nil types with options, option constructors) is placed '
                      'before / between / after EncodedSize, EncodeObject and DecodeObject of a symbolic value: sizes, bytes and decoded value equal the reference for all values; setters return their argument; Pretouch returns nil. '
-                     'FRUGAL_MAX_INLINE_DEPTH as a symbolic string of length 0..3 (5 thorough): every valid decimal above the minimum parses to its value without panic.',
+                     'FRUGAL_MAX_INLINE_DEPTH as a symbolic string of length 0..3 (5 thorough): every valid decimal above the minimum parses to its value without panic. '
+                     'The codec cores of the nesting family (thorough: + default family) and deep messages (48/100/1024 levels, 5 nesting mixtures) are executed with FRUGAL_MAX_INLINE_DEPTH / FRUGAL_MAX_INLINE_IL_SIZE set to valid '
+                     'values before package initialisation (pairs 2/257, 3/2^63-1, 64/1000): all results equal the environment-independent reference.',
             'ref': 'DESIGN.md s7 C17', 'note': _CODEC_NOTE + ' strconv.ParseUint on symbolic text is a model (decimal digits; other bases excluded from the valid region); os.Getenv is modelled.',
             'technique': 'SSA-level symbolic execution + SMT (z3), non-interference by differential against the reference'},
 })
@@ -234,14 +265,19 @@ MANIFEST_TEXT['C12'] = {
     'technique': 'SSA-level execution of the real tag parser + symbolic codec differential against schema-derived reference'}
 
 MANIFEST_TEXT['C08'] = {
-    'level': 'PARTIAL: no schedule is explored. Decided instead are the synchronisation-discipline invariants that make the result schedule-independent, on the real code: '
-             '(1) the read-lock-free descriptor map under symbolic keys incl. same-bucket collisions: Get returns exactly the last Set, a snapshot taken by a reader before later Sets is never modified '
-             '(every store to memory already published through an atomic pointer is a violation); (2) lock discipline: the plain caches ttypes / prefetchStructDescCache are only accessed, and the descriptor map only '
-             'written, with sdsmu held (checked on every registration the other harnesses perform); (3) steady-state non-interference: during every EncodedSize/EncodeObject/DecodeObject of the codec/decmsg/hist '
-             'harnesses all memory built by registration and package initialisation is frozen - any write is a violation; (4) pooled scratch is never touched after Put (M-released).',
-    'ref': 'DESIGN.md s7 C08', 'note': 'Not covered: interleavings of the registration body with itself beyond the lock discipline, double-checked creation under contention, sync.Pool / reflect / runtime internals, weak-memory effects, deadlock beyond recursive locking. '
-            'Discipline violations have no single-threaded native observable and are reported from the engine\'s execution alone (flagged engine_only_discipline in the replay file). ' + _CODEC_NOTE,
-    'technique': 'SSA-level symbolic execution with synchronisation-discipline monitors (published-immutable, lock-held, frozen shared state)'}
+    'level': 'BOUNDED (context-bounded schedules x symbolic data) plus discipline invariants. (a) Schedule exploration on the real code: k goroutines (k = 2..4) making concurrent first uses of '
+             'mutually nested types, first use next to steady-state calls, the same fresh type twice, a nested type used top-level during the registration that nests it, and a failing (rolled back) '
+             'registration next to first uses of the types it nests; the executor switches goroutines at every synchronisation operation (atomic slot load/store, Mutex/RWMutex with blocking semantics, '
+             'sync.Pool Get/Put, start/end) and enumerates every schedule with <= P preemptions (quick P=2/1/0 for 2/3/4 goroutines, thorough P=4/2/2); field values are symbolic. Checked on every schedule: '
+             'vector-clock happens-before race detection on every plain access and Go-map operation, deadlock, no crash, and size / n / err / bytes / decoded value equal to independently written expected '
+             'results (= the sequential execution). (b) Discipline invariants on all registrations and steady-state calls of the codec/decmsg/hist harnesses: descriptor-map protocol under symbolic keys incl. '
+             'bucket collisions, no store to memory already published through an atomic pointer, plain caches accessed / descriptor map written only with sdsmu held, descriptors complete at publication time, '
+             'registration-built memory frozen during steady-state calls, pooled scratch untouched after Put.',
+    'ref': 'DESIGN.md s7 C08', 'note': 'Outside the claim: more preemptions / goroutines than the bound, other type graphs than the five-type family of the harness, weak-memory reorderings (atomics assumed sequentially '
+            'consistent), internals of sync.Pool / Mutex / reflect / runtime (modelled). Switching only at synchronisation operations is complete for race-free executions, and races are checked on those executions. '
+            'Schedule-dependent witnesses are replayed (inputs only) on a -race build of the real code up to 30 times; when the native scheduler never hits the interleaving they are reported from the engine alone '
+            '(engine_only_schedule, schedule in the replay file); discipline violations likewise (engine_only_discipline). ' + _CODEC_NOTE,
+    'technique': 'SSA-level symbolic execution with context-bounded schedule enumeration, vector-clock happens-before race detection and synchronisation-discipline monitors'}
 
 NOT_APPLICABLE = {
     'C18': 'Allocation behaviour is decided by the gc compiler\'s escape analysis/inlining and runtime internals that do not exist at the go/ssa level this technique encodes; measuring MemStats would be a different technique (DESIGN.md s7 C18).',
